@@ -116,6 +116,29 @@ class Report:
     def inconc(self, why):
         self.inconclusive.append(why)
 
+    def part(self, label):
+        """context manager isolating one independent part of a check: a machinery failure inside it is recorded as inconclusive and
+        the other parts (and the native twins) still run, so that a violation they find is still reported"""
+        rep = self
+
+        class _Part:
+            def __enter__(self_):
+                return self_
+
+            def __exit__(self_, et, ev, tb):
+                if et is None:
+                    return False
+                if issubclass(et, Inconclusive):
+                    rep.inconc(f'{label}: {ev}')
+                    return True
+                if issubclass(et, Exception):
+                    import traceback
+                    traceback.print_exception(et, ev, tb)
+                    rep.inconc(f'{label}: machinery error: {ev!r}')
+                    return True
+                return False
+        return _Part()
+
     # ---- finish
     def finish(self):
         wall = time.time() - self.t0
